@@ -697,20 +697,27 @@ def premise_entry(ctx, rule="E", sizes=((FIVE, 5), (SIX, 6), (SEVEN, 7))):
             rep.ob(rule + ".value-is-first-component", short(path), ok, "hand_rank_value() is not the first component of hand_rank_value_and_hand() of the same hand", pdb.where(k_v))
         ctx.guard(rule + ".value", val)
         def gate(path=path, n=n, h=h):
-            k_v, _ = ctx.method(path, "hand_rank_value", HR)
+            k_v, sty_v = ctx.method(path, "hand_rank_value", HR)
+            k_and, _ = ctx.method(path, "hand_rank_value_and_hand", HR)
             k_valid, _ = ctx.method(path, "is_valid", HV)
             k_g, sty = ctx.method(path, "hand_rank_value_validated", HR)
-            sm = ctx.summ(k_g, [("r", h)], sty, opaque={k_v, k_valid})
+            # reference: the unvalidated value of the same hand, with the ranking itself left uninterpreted
+            ref = ctx.summ(k_v, [("r", h)], sty_v, opaque={k_and}).ret
+            sm = ctx.summ(k_g, [("r", h)], sty, opaque={k_and, k_valid})
             r = sm.ret
             res = {}
+            refv = {}
             for iv in (0, 1):
-                env = {"$fn:" + k_valid: (lambda a, iv=iv: C(iv, "bool")), "$fn:" + k_v: (lambda a: C(4242, "u16"))}
+                env = {"$fn:" + k_valid: (lambda a, iv=iv: C(iv, "bool")), "$fn:%s#0" % k_and: (lambda a: C(4242, "u16")),
+                       "$fn:" + k_and: (lambda a: agg(("tuple",), (C(4242, "u16"), UNIT)))}
                 env.update({"s%d" % i: 100 + i for i in range(n)})
                 res[iv] = cval(evaluate(pdb, r, env))
-            rep.ob(rule + ".validity-gate", short(path), res == {0: 0, 1: 4242}, "hand_rank_value_validated gives %s for an invalid hand and %s for a valid hand whose value is 4242 (must be 0 / the unvalidated value)" % (res.get(0), res.get(1)), pdb.where(k_g))
+                refv[iv] = cval(evaluate(pdb, ref, env))
+            rep.ob(rule + ".validity-gate", short(path), res == {0: 0, 1: refv[1]} and refv[1] == 4242,
+                   "hand_rank_value_validated gives %s for an invalid hand and %s for a valid hand whose unvalidated value is %s (must be 0 / the unvalidated value)" % (res.get(0), res.get(1), refv.get(1)), pdb.where(k_g))
             # the calls must be on the same hand
             for x in walk(r):
-                if x[0] == "call" and x[1] in ("fn:" + k_v, "fn:" + k_valid):
+                if x[0] == "call" and (x[1] in ("fn:" + k_valid, "fn:" + k_and) or x[1].startswith("fn:%s#" % k_and)):
                     rep.ob(rule + ".validity-gate-arg", "%s %s" % (short(path), x[1].split("::")[-1]), x[2][0] is h, "validated ranking checks or ranks a different hand than its receiver", pdb.where(k_g))
         ctx.guard(rule + ".gate", gate)
     def free():
@@ -758,21 +765,36 @@ def discharge_residual_obligations(ctx, fac, rule, max_ranks, PR, extra_env=None
             rep.ob(rule, label, False, "panic site depends on slot bits outside the recognised summaries: cannot bound it", "%s line %s" % (pdb.where(o.fn), o.line))
             continue
         bad = None
-        uses_contract = any(x[0] == "call" and x[1].startswith("contract:") for x in walk(c2))
-        for m in masks:
-            for fl in (0, 1):
-                for idxv in ((0, (len(PR) - 1) if PR else 0) if uses_contract else (0,)):
-                    env = {"M": m, "F": fl, "P": 0, "$contract:find_in_products": (lambda k, idxv=idxv: C(idxv, "usize"))}
-                    try:
-                        if all(cval(evaluate(pdb, c, env)) for c in pc2):
-                            if not cval(evaluate(pdb, c2, env)):
-                                bad = bad or (m, fl)
-                    except IndexError:
-                        bad = bad or (m, fl)
-            if bad:
+        ats = set(atoms_of(c2))
+        for c in pc2:
+            ats |= set(atoms_of(c))
+        uses_p = "P" in ats or any(x[0] == "call" and x[1].startswith("contract:") for root in [c2] + pc2 for x in walk(root))
+        uses_m = bool(ats & {"M", "F"})
+        if PR:
+            pdom_full = sorted(set(PR) | {0, 1, PR[0] - 1, PR[-1] + 1, (1 << 32) - 1} | {PR[j] + 1 for j in range(len(PR)) if j + 1 == len(PR) or PR[j + 1] - PR[j] > 1})
+            pdom_small = [0, PR[0], PR[len(PR) // 2], PR[-1], PR[-1] + 1, (1 << 32) - 1]
+            h_ = fip_handler(PR)
+        else:
+            pdom_full = pdom_small = [0]
+            h_ = lambda k: C(0, "usize")
+        if uses_p and not uses_m:
+            dom = [(0, 0, pv) for pv in pdom_full]
+        elif uses_p:
+            dom = [(m, fl, pv) for m in masks for fl in (0, 1) for pv in pdom_small]
+        else:
+            dom = [(m, fl, 0) for m in masks for fl in (0, 1)]
+        for (m, fl, pv) in dom:
+            env = {"M": m, "F": fl, "P": pv, "$contract:find_in_products": h_}
+            try:
+                if all(cval(evaluate(pdb, c, env)) for c in pc2):
+                    if not cval(evaluate(pdb, c2, env)):
+                        bad = (m, fl, pv)
+                        break
+            except IndexError:
+                bad = (m, fl, pv)
                 break
-        rep.evals(len(masks) * 2)
-        rep.ob(rule, label, bad is None, "%s in %s can fail for rank mask %#x (flush=%s)" % (o.kind, short(o.fn), bad[0] if bad else 0, bad[1] if bad else 0), "%s line %s" % (pdb.where(o.fn), o.line))
+        rep.evals(len(dom))
+        rep.ob(rule, label, bad is None, "%s in %s can fail for rank mask %#x, flush=%s, prime product %s" % (o.kind, short(o.fn), bad[0] if bad else 0, bad[1] if bad else 0, bad[2] if bad else 0), "%s line %s" % (pdb.where(o.fn), o.line))
         n += 1
     return n
 
@@ -955,6 +977,8 @@ def bestof_loop(ctx, path, n, rule, need):
     ex = Exec(pdb, contracts={FIP: fip_contract}, opaque={k5v})
     rep.fn(key)
     cfg = ex.cfg(key)
+    if len(cfg.loops) == 0:
+        return bestof_reduction(ctx, path, n, rule, need, ob, key, sty, k5v)
     if len(cfg.loops) != 1:
         ob("loop-shape", short(path), False, "expected exactly one loop over the combination table, found %d" % len(cfg.loops), where)
         return None
@@ -977,13 +1001,16 @@ def bestof_loop(ctx, path, n, rule, need):
     frame1 = outs1[h][1].frames[fid]
     carried = [l for l in sorted(frame0) if l in frame1 and frame1[l] is not frame0[l]]
     iters = [l for l in carried if frame0[l][0] == "agg" and frame0[l][1][0] == "model"]
-    if len(iters) != 1 or frame0[iters[0]][1][1] != "ArrayIter":
-        ob("loop-shape", short(path), False, "the loop does not iterate over a constant array by value", where)
+    if len(iters) != 1 or frame0[iters[0]][1][1] not in ("ArrayIter", "SliceIter"):
+        ob("loop-shape", short(path), False, "the loop does not iterate over a constant array", where)
         return None
     l_it = iters[0]
     it0 = frame0[l_it]
+    by_ref = it0[1][1] == "SliceIter"
     table = pdb.const_val(perm_table_name(path))
     rows = arr_of(it0[2][0])
+    if by_ref and rows:
+        rows = [ex.load(st0, r) for r in rows]
     got_rows = [[cval(x) for x in arr_of(r)] for r in rows] if rows else None
     ob("iterates-table", short(path), got_rows == [list(r) for r in table] and cval(it0[2][1]) == 0,
            "the candidate loop does not iterate over the whole of %s from its first row" % perm_table_name(path).split("cards::")[-1], where)
@@ -997,7 +1024,10 @@ def bestof_loop(ctx, path, n, rule, need):
         for l in carried:
             v0 = frame0[l]
             if l == l_it:
-                fr[l] = mk("agg", ("model", "ArrayIter"), (agg(("array",), rows_), C(0, "usize")))
+                if by_ref:
+                    fr[l] = mk("agg", ("model", "SliceIter"), (agg(("array",), [ex.new_tmp(s_, r_) for r_ in rows_]), C(0, "usize")))
+                else:
+                    fr[l] = mk("agg", ("model", "ArrayIter"), (agg(("array",), rows_), C(0, "usize")))
             elif v0[0] == "c":
                 fr[l] = atom("c%d" % l, v0[2])
                 names[l] = fr[l]
@@ -1133,6 +1163,153 @@ def bestof_loop(ctx, path, n, rule, need):
     return dict(key=key, callee=k5v, body_obs=body_obs, l_best=l_best, l_hand=l_hand, ex=ex)
 
 
+def symbolise(v, prefix, counter):
+    """Replace every scalar leaf of a value by a fresh atom of the same type (aggregates keep their shape)."""
+    if v[0] == "agg":
+        return mk("agg", v[1], tuple(symbolise(f, prefix, counter) for f in v[2]))
+    t = ty_of(v)
+    if t is None:
+        raise Uncertified("cannot abstract a value of kind %s" % v[0])
+    counter[0] += 1
+    return atom("%s%d" % (prefix, counter[0]), t)
+
+
+def leaves_of(v, out):
+    if v[0] == "agg":
+        for f in v[2]:
+            leaves_of(f, out)
+    else:
+        out.append(v)
+    return out
+
+
+def bestof_reduction(ctx, path, n, rule, need, ob, key, sty, k5v):
+    """Best-of written as an iterator reduction (`iter().map(..).fold(init, step)`): the step closure is the
+    transformer; the items are the mapped table rows."""
+    rep, pdb = ctx.rep, ctx.pdb
+    where = pdb.where(key)
+    hand = ctx.hand(path, n)
+    ex = Exec(pdb, contracts={FIP: fip_contract}, opaque={k5v})
+    st = State()
+    href = ex.new_tmp(st, hand)
+    ret, st2 = ex.summarise(key, [href], sty, st)
+    reds = [r for r in ex.reductions if r["caller"] == key or r["caller"].startswith(key)]
+    if len(reds) != 1:
+        ob("loop-shape", short(path), False, "neither a loop nor a single reduction over the combination table (found %d reductions)" % len(reds), where)
+        return None
+    red = reds[0]
+    table = [list(r) for r in pdb.const_val(perm_table_name(path))]
+    items = red["items"]
+    if any(c is not TRUE for c in red["conds"]):
+        ob("loop-shape", short(path), False, "the reduction runs over a sequence of unknown length", where)
+        return None
+    init = red["init"]
+    if ret[0] != "agg" or len(ret[2]) != 2:
+        ob("result", short(path), False, "hand_rank_value_and_hand does not return a (value, hand) pair", where)
+        return None
+    # accumulator shape: one u16 (best value) and one Five (best hand), in some tuple order
+    if init[0] != "agg" or init[1][0] != "tuple":
+        ob("loop-shape", short(path), False, "the reduction's accumulator is not a (value, hand) tuple", where)
+        return None
+    ix_v = next((i for i, f in enumerate(init[2]) if ty_of(f) == "u16"), None)
+    ix_h = next((i for i, f in enumerate(init[2]) if f[0] == "agg" and f[1][:2] == ("adt", FIVE)), None)
+    if ix_v is None or ix_h is None:
+        ob("loop-shape", short(path), False, "the reduction's accumulator has no (u16, Five) pair", where)
+        return None
+    ob("initial-best", short(path), init[2][ix_v][0] == "c" and init[2][ix_v][1] == 0, "the running best value does not start at 0 (no hand yet)", where)
+    # items: each must carry the opaque ranking of a candidate made of the receiver's slots named by its table row
+    ok_rows = len(items) == len(table)
+    ok_rank = True
+    base_env = {"s%d" % i: 100 + i for i in range(n)}
+    for k_, it in enumerate(items):
+        lv = leaves_of(it, []) if it[0] == "agg" else [it]
+        calls = [x for x in lv if x[0] == "call" and x[1] == "fn:" + k5v]
+        hands = [f for f in (it[2] if it[0] == "agg" else []) if f[0] == "agg" and f[1][:2] == ("adt", FIVE)]
+        if len(calls) != 1 or len(hands) != 1:
+            ok_rank = False
+            continue
+        cand = calls[0][2][0]
+        ok_rank = ok_rank and cand is hands[0]
+        got = [cval(evaluate(pdb, x, base_env)) for x in arr_of(cand)]
+        if k_ < len(table):
+            ok_rows = ok_rows and got == [100 + r for r in table[k_]]
+    ob("iterates-table", short(path), ok_rows, "the reduction does not visit one candidate per row of %s, built from the slots that row names" % perm_table_name(path).split("cards::")[-1], where)
+    ob("candidate-from-row", short(path), ok_rows, "a ranked candidate is not made of the receiver's slots named by its table row", where)
+    ob("ranks-one-candidate", short(path), ok_rank, "an item does not pair a candidate with the ranking of that same candidate", where)
+    ob("no-early-exit", short(path), True)
+    # the step closure on a symbolic accumulator and item
+    cnt = [0]
+    acc_s = symbolise(init, "a", cnt)
+    item_s = symbolise(items[0], "i", cnt) if items else None
+    if item_s is None:
+        return None
+    st3 = State()
+    from ..models import call_closure
+    ex2 = Exec(pdb, contracts={FIP: fip_contract}, opaque={k5v})
+    nxt, _ = call_closure(ex2, {"key": key, "self_ty": None, "depth": 0, "fid": 0}, st3, red["closure"], [acc_s, item_s])
+    if nxt[0] != "agg" or len(nxt[2]) != len(init[2]):
+        ob("loop-shape", short(path), False, "the step does not return an accumulator of the same shape", where)
+        return None
+    best_a = acc_s[2][ix_v]
+    old_h = [x[1] for x in arr_of(acc_s[2][ix_h])]
+    # which leaf of the item is the candidate value / hand
+    iv = next((f for f in (item_s[2] if item_s[0] == "agg" else [item_s]) if ty_of(f) == "u16"), None)
+    ih = next((f for f in (item_s[2] if item_s[0] == "agg" else []) if f[0] == "agg" and f[1][:2] == ("adt", FIVE)), None)
+    if iv is None or ih is None:
+        ob("loop-shape", short(path), False, "the reduction's items are not (value, hand) pairs", where)
+        return None
+    new_h = [x[1] for x in arr_of(ih)]
+    badv = badw = badz = None
+    for bv_ in (0, 5, 9):
+        for xv in (0, 3, 5, 7, 9, 12):
+            env = {best_a[1]: bv_, iv[1]: xv}
+            env.update({nm: 200 + j for j, nm in enumerate(old_h)})
+            env.update({nm: 300 + j for j, nm in enumerate(new_h)})
+            gotv = cval(evaluate(pdb, nxt[2][ix_v], env))
+            expv = xv if bv_ == 0 else (xv if (xv != 0 and xv < bv_) else bv_)
+            if gotv != expv:
+                badv = badv or (bv_, xv, gotv, expv)
+            if xv != 0 and gotv == 0:
+                badz = (bv_, xv)
+            goth = [cval(x) for x in arr_of(evaluate(pdb, nxt[2][ix_h], env))]
+            cand_v = [300 + j for j in range(5)]
+            old_v = [200 + j for j in range(5)]
+            if expv == xv and xv != bv_:
+                if goth != cand_v:
+                    badw = badw or (bv_, xv, "kept the old hand although the candidate set the new best value")
+            elif expv == bv_ and xv != bv_:
+                if goth != old_v:
+                    badw = badw or (bv_, xv, "replaced the remembered hand although the best value did not change")
+            elif goth not in (cand_v, old_v):
+                badw = badw or (bv_, xv, "remembered hand is neither the candidate nor the previous best")
+    rep.evals(36)
+    ob("keeps-smallest-nonzero", short(path), badv is None, "with best so far %s and candidate value %s the step keeps %s, the smallest non-zero value is %s" % (badv or (0, 0, 0, 0)), where)
+    ob("witness-follows-value", short(path), badw is None, "with best so far %s and candidate value %s: %s" % (badw or (0, 0, "")), where)
+    ob("nonzero-preserving", short(path), badz is None, "with best so far %s and a candidate of value %s the running best becomes 0" % (badz or (0, 0)), where)
+    ob("candidate-is-five", short(path), True)
+    # the function returns the reduction's value, and its hand under a descending sort
+    result = red.get("result")
+    ok_best = result is not None and ret[2][0] is result[2][ix_v]
+    ob("result-is-running-best", short(path), ok_best, "the returned value is not the value component of the reduction's result", where)
+    okw = False
+    if result is not None:
+        relems = arr_of(result[2][ix_h])
+        ws = [atom("w%d" % j, "u32") for j in range(5)]
+        idmap = {id(e): w for e, w in zip(relems, ws)}
+        wit = substitute(ret[2][1], lambda nd: idmap.get(id(nd)))
+        wl = arr_of(wit)
+        if wl is not None and len(wl) == 5 and set(atoms_of(wit)) <= {"w%d" % j for j in range(5)}:
+            okw = True
+            for t in weak_orderings(5):
+                env = {"w%d" % j: 10 * (r + 1) for j, r in enumerate(t)}
+                if [cval(evaluate(pdb, x, env)) for x in wl] != sorted(env.values(), reverse=True):
+                    okw = False
+                    break
+    ob("witness-sorted", short(path), okw, "the reported hand is not the reduction's best candidate arranged in descending card order", where)
+    rep.sample({"rule": rule, "container": short(path), "form": "iterator reduction (fold)", "items": len(items), "decision_table_cases": 18})
+    return dict(key=key, callee=k5v, body_obs=[], ex=ex)
+
+
 def describe_cond(g):
     return "(%d conjunct(s) on the candidate/best values)" % len(g)
 
@@ -1235,21 +1412,34 @@ def check_C04(ctx):
         def corrupt(path=path, n=n, h=h):
             key, sty = ctx.method(path, "is_corrupt", HV)
             sm = ctx.summ(key, [("r", h)], sty, opaque={kfilter, kpf})
-            leaves = []
-            flat_or(sm.ret, leaves)
-            slots = []
-            ok = True
-            for l in leaves:
-                hit = None
-                if l[0] == "bin" and l[1] == "Eq":
-                    for a_, b_ in ((l[2], l[3]), (l[3], l[2])):
-                        if a_[0] == "call" and a_[1] in ("fn:" + kfilter, "fn:" + kpf) and a_[2][0][0] == "atom" and b_[0] == "c" and b_[1] == 0:
-                            hit = a_[2][0][1]
-                if hit is None:
-                    ok = False
-                else:
-                    slots.append(hit)
-            rep.ob("V.is_corrupt", short(path), ok and sorted(slots) == ["s%d" % i for i in range(n)], "is_corrupt is not `some slot is mapped to BLANK by the card filter` over exactly the %d slots (slots tested: %s)" % (n, sorted(slots)), pdb.where(key))
+            # slot words may reach the result only through the card filter
+            direct = set()
+            seen = set()
+            stack = [sm.ret]
+            while stack:
+                x = stack.pop()
+                if id(x) in seen:
+                    continue
+                seen.add(id(x))
+                if x[0] == "call" and x[1] in ("fn:" + kfilter, "fn:" + kpf):
+                    if not (x[2][0][0] == "atom"):
+                        direct.add("filter applied to a non-slot value")
+                    continue
+                if x[0] == "atom":
+                    direct.add(x[1])
+                stack.extend(children(x))
+            bad = None
+            if not direct:
+                for pat in range(1 << n):
+                    vals = {"s%d" % i: (0 if (pat >> i) & 1 else 1000 + i) for i in range(n)}
+                    hnd = lambda a, vals=vals: C(vals[a[1]] if a[0] == "atom" else 1, "u32")
+                    env = {"$fn:" + kfilter: hnd, "$fn:" + kpf: hnd}
+                    got = cval(evaluate(pdb, sm.ret, env))
+                    if got != (1 if pat else 0):
+                        bad = pat
+                rep.evals(1 << n)
+            rep.ob("V.is_corrupt", short(path), not direct and bad is None,
+                   "is_corrupt is not `some slot is mapped to BLANK by the card filter` over exactly the %d slots (%s)" % (n, "reads %s directly" % sorted(direct) if direct else "wrong when the filter blanks slots %s" % [i for i in range(n) if (bad or 0) >> i & 1]), pdb.where(key))
             key, sty = ctx.method(path, "contain_blank", HV)
             r = ctx.summ(key, [("r", h)], sty).ret
             bad = 0
